@@ -266,9 +266,12 @@ def _inject_violation(rec, info, sym):
         wc = f'non-consecutive counters (path {_shape(path)})'
     elif only_fill and ab == 0 and pf > 0 and delta == -pf:
         wc = 'fill-only path: counters ignore the operations pending in the mempool'
-    elif only_fill and pf == 0 and ab > 0 and delta == ab:
+    elif only_fill and pf == 0 and ab > 0 and delta >= ab:
+        # delta > ab: further counters were handed out after this group's first fill attempt and before the fill that gave it its
+        # counters (e.g. an autofill of the same unfilled group refused by the node) — the allocator only ever returns previous + 1
+        # (proved in the P part), so every positive delta on this path is counters handed out to fills that were never injected
         wc = 'fill-only path: counter cache was advanced by an earlier filled group that was never injected'
-    elif only_fill and pf > 0 and ab > 0 and delta == ab - pf:
+    elif only_fill and pf > 0 and ab > 0 and delta >= ab - pf:
         wc = 'fill-only path: pending mempool operations ignored and cache advanced by a never-injected group'
     else:
         wc = f'unexplained: path {_shape(path)} delta {delta:+d} pending_at_fill {pf} allocated_before {ab}'
